@@ -4,11 +4,13 @@ const char *get_file_extension(const char *path) {
   const char *base_name = strrchr(path, '/');
   if (!base_name) {
     base_name = path;
+  } else {
+    ++base_name;
   }
   const char *extension = strchr(base_name, '.');
   if (!extension) {
     extension = strrchr(path, 0);
-  } else if (extension - base_name <= 1) {
+  } else if (extension == base_name) {
     extension = strchr(extension + 1, '.');
     if (!extension) {
       extension = strrchr(path, 0);
